@@ -54,7 +54,7 @@ CHECKS["C19"] = dict(
    technique="static analysis: data-flow dependence shape of every RandomCoin method on all paths, must-pass state updates, canonical comparison of the prover's and verifier's proof-of-work predicates",
    text="Static proof over every path of each RandomCoin implementation that seed and counter updates have the documented dependence shape "
         "(new/reseed/next/draw_integers), that every drawn element is the Some payload of the field's validated conversion of a fresh next() "
-        "output, that integers are next() outputs masked with domain_size-1 and counted, that the proof-of-work measure is read-only and "
+        "output and the counter advances once per output, that integers are next() outputs reduced to the power-of-two domain (mask or remainder) and counted, that the proof-of-work measure is read-only and "
         "counter-independent, and that the prover's search predicate is the exact complement of the verifier's reject predicate. Statistical "
         "statements are not decided.",
    design_ref="DESIGN.md §3 C19")
@@ -108,8 +108,10 @@ CHECKS["C11"] = dict(
 CHECKS["C12"] = dict(
    technique="static analysis: token-grammar extraction from the MIR of every write_into/read_from pair with path-set comparison; limit agreement between constructor assertions, writer casts and reader decisions",
    text="Static proof, for all 38 types with both impls, that the set of token sequences the writer can emit equals the set the reader consumes on "
-        "its accepting paths (byte widths, order, nesting, repetition), that TraceInfo's narrowing casts are covered by the limits its constructor "
-        "asserts, and that its reader accepts exactly the widths and random-element counts its constructor accepts. Decides the structural half "
+        "its accepting paths (byte widths, order, nesting, repetition), that every narrowing cast of TraceInfo::write_into receives only values its "
+        "target type can hold for everything the constructor can return (interval analysis; on the release configuration too, where the "
+        "constructor's arithmetic is unchecked), and that the set of shapes accepted by read_from equals the set accepted by the constructor "
+        "(accepted sets compared as unions of boxes with sum constraints). Decides the structural half "
         "of the round trip (in particular for Proof, which no test round-trips); equality of decoded field values and reader-implementation "
         "independence are C07/C13.",
    design_ref="DESIGN.md §3 C12")
@@ -118,7 +120,8 @@ CHECKS["C14"] = dict(
    text="Static analysis of the feature-enabled build (which the test suite never compiles): scheduling-dependent rayon combinators occur only "
         "in the nonce search; the functions that re-create a mutable slice from a raw pointer inside parallel code are exactly the three "
         "reviewed ones; the raw worker count is consumed only through next_power_of_two() so batch boundaries stay aligned for every pool "
-        "size; public functions of `concurrent` modules have serial siblings with identical signatures. Index-disjointness at the raw-pointer "
+        "size; in fragment evaluators a row position handed to anything but the fragment derives from fragment.offset(); public functions of "
+        "`concurrent` modules have serial siblings with identical signatures. Index-disjointness at the raw-pointer "
         "sites and bit-identity of results are not decided.",
    design_ref="DESIGN.md §3 C14")
 CHECKS["C08"] = dict(
